@@ -8,12 +8,56 @@ def run(chk):
                 'link to non-sticky) with a populated .Trash/$uid (an item whose restore target is free, which matches '
                 'the rm pattern and is older than DAYS, optionally an orphan); the projection of .Trash/$uid must stay '
                 'as the specification says (untouched when insecure), trash-list must report the skipped directory; '
-                'all generated cases are executed; non-trivial = state changed or command had to fail')
+                'all generated cases are executed; stage mid-run-change: one trash-put with two arguments of one volume, run in lock-step, '
+                '.Trash made insecure (sticky bit removed / replaced by a symlink) between the two: both halves are judged by TLC '
+                '(TrashTrace) against PutApply under the state of their own time; non-trivial = state changed or command had to fail')
     chk.assumptions += common.ASSUME
     common.mc(chk, properties=['InsecureFrozen'])
     common.gen_tt(chk, 'insecure', 'Init_Insecure', 'Next_Insecure', 10, None, thorough_seeds=4)
-    g = None
+    midrun_stage(chk)
     chk.exhaustive = True
+
+
+def midrun_stage(chk):
+    """one trash-put with two arguments on a volume whose .Trash stops being secure between the two (see harness/midrun.py)"""
+    import random
+    from harness import midrun, tlc, tt
+    groups = stages.generate(chk, 'mid-run-change', 'Init_PutList', 'Next_Put2', dict(common.C, MaxObj=4, GenLevel=1))
+    sel = [g for g in groups if g['cfg']['top']['V1'] == 'sticky' and g['cfg']['altfile'] == []
+           and all(a['class'] == 'entry' and a.get('r') == 'V1' for a in g['lab']['args'])
+           and g['lab']['args'][0] != g['lab']['args'][1] and not g['lab']['opts']['force'] and g['lab']['opts']['inter'] == 'off'
+           and all(any(e['r'] == a['r'] and e['d'] == a['d'] and e['n'] == a['n'] for e in g['pre']['live']) for a in g['lab']['args'])]
+    if not sel:
+        chk.machinery.append('mid-run-change: no suitable generated case')
+        return
+    rnd = random.Random('midrun|%s' % chk.seed)
+    nseeds = 4 if chk.tier == 'quick' else 40
+    jobs = [(g, rnd.randrange(1 << 30), new) for g in sel for new in midrun.CHANGES for _ in range(nseeds)]
+    out = tt.pmap(midrun.run_midrun, jobs)
+    steps, owners = [], []
+    for job, r in zip(jobs, out):
+        if r['status'] == 'machinery':
+            chk.machinery.append('mid-run-change: %s' % '; '.join(r['diffs'])[:1200])
+            continue
+        chk.traces += 1
+        chk.count('mid-run-change', 1, key='%s|%s' % (r['new'], r['seed']), nontrivial=True)
+        if r['status'] == 'mismatch':
+            chk.violation('mid-run-change:%s:outside' % r['new'], '; '.join(r['diffs'])[:1000], {'kind': 'midrun', 'new': r['new'], 'seed': r['seed'], 'run': r.get('run')})
+        for s_ in r['steps']:
+            steps.append(s_)
+            owners.append(r)
+    if not steps:
+        return
+    vr, acc = tlc.validate_steps(steps)
+    chk.add_tlc('trashtrace:mid-run-change', vr, constants='observed steps=%d' % len(steps))
+    if vr.ok:
+        for i, r in enumerate(owners):
+            if (i + 1) not in acc:
+                half = 'first argument (.Trash still sticky)' if i % 2 == 0 else 'second argument (.Trash now %s)' % r['new']
+                chk.violation('mid-run-change:%s:%s' % (r['new'], 'arg1' if i % 2 == 0 else 'arg2'),
+                              'trash-put a b with $topdir/.Trash changed to %s between the two: the %s did not go where PutApply '
+                              'says: %s | %s' % (r['new'], half, steps[i]['post']['items'], (r.get('run') or {}).get('stderr', '')[-300:]),
+                              {'kind': 'midrun', 'new': r['new'], 'seed': r['seed'], 'step': steps[i]})
 
 
 def replay(path):
